@@ -108,7 +108,7 @@ impl<'a> I<'a> {
         for c in [own.as_slice(), hub.as_slice(), b"ethereum".as_slice()] {
             self.op(&format!("its.is_trusted {}", hx(c)), "q-initial-trust");
         }
-        for c in ["ethereum", "avalanche"] {
+        for c in ["ethereum", "avalanche", "Avalanche-Fuji"] {
             self.op(&format!("its.set_trusted {} {}", hx(c.as_bytes()), self.owner.tok()), "set-trusted");
         }
     }
@@ -335,6 +335,13 @@ pub fn gen_c04(run: &mut Run, seed: u64, thorough: bool) {
             // origin chain untrusted / un-trusted again
             let untrusted = transfer_payload(&env, b"polygon", &tid, b"0xsrc", &dest, 7, None);
             i.deliver(&untrusted, "origin-never-trusted");
+            // the hub's own chain name, and this chain's own name, as ORIGIN: names like any other — not trusted unless set
+            let hubname = i.hub_chain.clone();
+            let p = transfer_payload(&env, &hubname, &tid, b"0xsrc", &dest, 7, None);
+            i.deliver(&p, "origin-is-hub-chain-name");
+            let own = i.chain.clone();
+            let p = transfer_payload(&env, &own, &tid, b"0xsrc", &dest, 7, None);
+            i.deliver(&p, "origin-is-own-chain-name");
             i.op(&format!("its.remove_trusted {} {}", hx(b"avalanche"), i.owner.tok()), "remove-trusted");
             let removed = transfer_payload(&env, b"avalanche", &tid, b"0xsrc", &dest, 7, None);
             i.deliver(&removed, "origin-untrusted-again");
@@ -503,6 +510,9 @@ pub fn gen_c05(run: &mut Run, seed: u64, thorough: bool) {
                             1 => (i.hub_chain.clone(), "dest-hub-itself"),
                             _ => (b"avalanche".to_vec(), "dest-avalanche"),
                         }
+                    } else if i.g.rng.chance(1, 4) {
+                        // a trusted chain whose name is not all lower case (the announcement must carry it unchanged)
+                        (b"Avalanche-Fuji".to_vec(), "dest-trusted-mixed-case")
                     } else {
                         (b"ethereum".to_vec(), "dest-trusted")
                     };
@@ -546,10 +556,11 @@ pub fn gen_c05(run: &mut Run, seed: u64, thorough: bool) {
                     let with_data = i.g.rng.chance(1, 3);
                     let to = if with_data && i.g.rng.chance(2, 3) { recv.clone() } else { i.g.rng.pick(&users).clone() };
                     let data = if with_data { Some(i.g.rng.bytes(4)) } else { None };
-                    let origin: &[u8] = if i.g.rng.chance(1, 8) { b"polygon" } else { b"ethereum" };
+                    let hubname = i.hub_chain.clone();
+                    let origin: &[u8] = match i.g.rng.below(16) { 0 => b"polygon", 1 => &hubname, 2 => b"Avalanche-Fuji", _ => b"ethereum" };
                     let mut p = transfer_payload(&env, origin, &tid, b"0xRemoteSender", &addr_xdr(&env, &to), amt, data);
                     let dcl = if with_data { if to == recv { "-data-app" } else { "-data-plain" } } else { "" };
-                    let ocl = if origin == b"polygon" { "-untrusted-origin" } else { "" };
+                    let ocl = if origin == b"polygon" { "-untrusted-origin" } else if origin == &hubname[..] { "-origin-hub-name" } else if origin == b"Avalanche-Fuji" { "-origin-mixed-case" } else { "" };
                     // an announced amount that does not fit: one high bit of the uint256 amount word set (bits 127, 128, 135,
                     // 136, 200, 255) on an otherwise valid payload — must be refused, never credited modulo anything
                     let mut big = "";
@@ -583,6 +594,19 @@ pub fn gen_c05(run: &mut Run, seed: u64, thorough: bool) {
                 }
             }
             i.sweep(&holders);
+        }
+        // directed: otherwise faultless inbound transfers whose ORIGIN is a chain that was never trusted — a foreign name, the
+        // hub's own chain name, this chain's own name — for a token of each kind (nothing may be credited)
+        {
+            let hubname = i.hub_chain.clone();
+            let own = i.chain.clone();
+            for (tid, kind) in [(ids[0].0, ids[0].1), (ids[2].0, ids[2].1)] {
+                for (origin, nm) in [(b"polygon".to_vec(), "foreign"), (hubname.clone(), "hub-name"), (own.clone(), "own-name")] {
+                    let p = transfer_payload(&env, &origin, &tid, b"0xRemoteSender", &addr_xdr(&env, &users[0]), 1, None);
+                    i.deliver(&p, &format!("inbound-{kind}-directed-untrusted-origin-{nm}"));
+                }
+                i.sweep(&holders);
+            }
         }
         // directed: announced amounts that do not fit (one high bit of the uint256 amount word set), for a token of each kind
         for (tid, kind) in [(ids[0].0, ids[0].1), (ids[2].0, ids[2].1)] {
@@ -830,6 +854,7 @@ pub fn gen_c18(run: &mut Run, seed: u64, thorough: bool) {
         i.sweep(&holders);
         let dests: Vec<(Vec<u8>, &str)> = vec![
             (b"ethereum".to_vec(), "trusted"),
+            (b"Avalanche-Fuji".to_vec(), "trusted-mixed-case"),
             (b"polygon".to_vec(), "never-trusted"),
             (b"avalanche".to_vec(), "removed"),
             (i.hub_chain.clone(), "hub-itself"),
